@@ -321,6 +321,48 @@ def check_mixed_containers(res: Result, names, want, case):
                 res.nontrivial += 1
 
 
+def check_option_columns(res: Result, names, want, case):
+    """A documented name set whose columns are option-typed (a missing entry at a *different* position in every column; all in
+    the same position; lists with None, numpy masked arrays, jagged lists): every column is stored with its own values and its
+    own missing positions; vector.zip, vector.Array of the same records and vector.Array(ak.zip) agree."""
+    dim, system, flavor, origin = want
+    n = len(names)
+    base = {nm: [TAG[nm], -TAG[nm] - 0.375, TAG[nm] + 0.1, 2 * TAG[nm]] for nm in names}
+    for pattern in ("staggered", "aligned", "one column"):
+        miss = {nm: ({i % 4} if pattern == "staggered" else {1} if pattern == "aligned" else ({2} if i == n - 1 else set())) for i, nm in enumerate(names)}
+        lists = {nm: [None if k in miss[nm] else v for k, v in enumerate(base[nm])] for nm in names}
+        masked = {nm: np.ma.MaskedArray(base[nm], mask=[k in miss[nm] for k in range(4)]) for nm in names}
+        jag = {nm: [lists[nm][:1], [], lists[nm][1:]] for nm in names}
+        recs = [{nm: lists[nm][k] for nm in names} for k in range(4)]
+        ctors = (("zip(lists with None)", lambda: vector.zip({nm: ak.Array(lists[nm]) for nm in names}), lists), ("zip(masked arrays)", lambda: vector.zip(dict(masked)), lists),
+                 ("zip(jagged with None)", lambda: vector.zip({nm: ak.Array(jag[nm]) for nm in names}), jag), ("Array(records with None)", lambda: vector.Array(recs), lists),
+                 ("Array(ak.zip with None)", lambda: vector.Array(ak.zip({nm: ak.Array(lists[nm]) for nm in names})), lists))
+        for cname, build, expect in ctors:
+            res.states += 1
+            res.transitions += 1
+            res.traces += 1
+            res.evaluations += 1
+            c2 = dict(case, ctor=cname, option_pattern=pattern)
+            key = f"option_columns|{cname}|{pattern}"
+            try:
+                r = build()
+                fields = ak.fields(r)
+                got = {f: ak.to_list(r[f]) for f in fields}
+            except Exception as e:  # noqa: BLE001
+                res.violation(key + "|raises", f"{cname} ({pattern} missing entries) raised {type(e).__name__}: {str(e)[:150]}", c2)
+                continue
+            d = (B.system_of_fields(fields) if set(L.field_names(system)) <= set(fields) else None, "momentum" if isinstance(r, vector.Momentum) else "generic")
+            if d != (system, flavor):
+                res.violation(key + "|type", f"{cname} built fields {fields} ({d[1]}), expected {L.field_names(system)} ({flavor})", c2)
+                continue
+            bad = [f for f in L.field_names(system) if got[f] != expect[origin[f]]]
+            if bad:
+                f = bad[0]
+                res.violation(key, f"{cname} ({pattern} missing entries): coordinate {f} holds {got[f]}, supplied {expect[origin[f]]}", c2)
+            else:
+                res.nontrivial += 1
+
+
 def check_repeat_calls(res: Result, names, want, case):
     """The array constructors called twice with the *same argument objects* (a numpy.dtype object, a dtype list, a dict of columns,
     a list of records) build the same vector both times and leave their arguments as they were."""
@@ -461,6 +503,8 @@ def check_set(res: Result, names, tier, only=None):
         return
     if only in (None, "array(dict)", "zip"):
         check_mixed_containers(res, names, want, case)
+    if only is None or str(only).startswith(("zip(", "Array(")):
+        check_option_columns(res, names, want, case)
     if only is None or case.get("repeat") or str(only).startswith(("array(", "Array(", "zip")):
         check_repeat_calls(res, names, want, case)
     if only is None or str(only).startswith("Array"):
